@@ -3,7 +3,7 @@
    legacy = false: the code after fix C03-1, legacy = true: the `probe==-1` test before it).
    Spec: C03_Spec.v (key-sorted list as finite map, set' = sort(new ++ not-deleted old), linear finds). *)
 From Coq Require Import List ZArith NArith Bool Permutation Sorted.
-From DuneV Require Import C03_Params C03_Model C03_Spec C03_Proofs.
+From DuneV Require Import C03_Params C03_Model C03_Spec C03_Proofs C03_Proofs_Audit2.
 Import ListNotations.
 Local Open Scope Z_scope.
 
@@ -280,3 +280,34 @@ Example C03_dimension_ops_nonvacuous :
     [C03Ok; C03Ok; C03Ok; C03List [C03Pair 3 1 0 false false; C03Pair 7 3 0 false false; C03Pair 7 3 0 false false];
      C03Bits [true; false]; C03Bits [false; true]; C03Bits [true; false]; C03Bits [true; false]].
 Proof. vm_compute. split; reflexivity. Qed.
+
+(* ==== second cross-cutting audit, kind A: assignment onto a target that already holds other pairs, another sequence number,
+   an UNFINISHED resize phase (pending adds, deletion marks) or emptied lists: the target becomes exactly the source, and every
+   later history on it gives what it gives on the source -- for ALL targets, sources and histories ==== *)
+Theorem C03_assign_exact : forall target source : c03_state, c03_assign target source = source.
+Proof. exact c03_assign_exact_lemma. Qed.
+Print Assumptions C03_assign_exact.
+
+Theorem C03_assign_history : forall (chk legacy : bool) (target source : c03_state) (ops : list c03_op),
+  c03_run chk legacy (c03_assign target source) ops = c03_run chk legacy source ops.
+Proof. exact c03_assign_history_lemma. Qed.
+Print Assumptions C03_assign_history.
+
+Theorem C03_assign_forgets_target : forall (chk legacy : bool) (hist_t hist_s ops : list c03_op),
+  let t := fst (c03_run chk legacy c03_init hist_t) in
+  let s := fst (c03_run chk legacy c03_init hist_s) in
+  snd (c03_run chk legacy (c03_assign t s) ops) = snd (c03_run chk legacy s ops).
+Proof. exact c03_assign_forgets_target_lemma. Qed.
+Print Assumptions C03_assign_forgets_target.
+
+(* the targets the harness builds are not trivial: configuration 2 is in RESIZE state with 9 stored pairs (one marked), two
+   pending adds and sequence number 2; configuration 3 is an emptied set with sequence number 3; and a history continued on
+   the assigned target (source mid-phase with a pending add) shows none of it *)
+Example C03_assign_nonvacuous :
+  (c03_resize (c03_dirty 2), length (c03_local (c03_dirty 2)), length (c03_fresh (c03_dirty 2)), c03_seq (c03_dirty 2),
+   c03_deleted (c03_dirty 2), existsb c03_del (c03_local (c03_dirty 2))) = (true, 9%nat, 2%nat, 2, true, true) /\
+  (c03_resize (c03_dirty 3), c03_local (c03_dirty 3), c03_seq (c03_dirty 3)) = (false, [], 3) /\
+  let s := fst (c03_run true false c03_init [C03Begin; C03Add 7 3 0 false; C03End; C03Begin; C03Add 3 1 1 true]) in
+  snd (c03_run true false (c03_assign (c03_dirty 2) s) [C03End; C03Iterate; C03SeqNo; C03Mode]) =
+    [C03Ok; C03List [C03Pair 3 1 1 true false; C03Pair 7 3 0 false false]; C03Num 2; C03ModeOut false].
+Proof. vm_compute. repeat split; reflexivity. Qed.
